@@ -24,5 +24,5 @@ while IFS= read -r line; do
     PROP\ *) rc="${line##*rc=}"; if [ "$rc" != 0 ]; then alarms=$((alarms+1)); echo "FALSE-ALARM $cur rc=$rc"; printf "%s" "$buf" | head -4; fi;;
   esac
 done < "$tmp/all.out"
-grep -q "^PROP C20" "$tmp/all.out" || { alarms=$((alarms+1)); echo "CHECKER-FAILED"; tail -3 "$tmp/all.out"; }
+grep -q "^PROP C[12]0" "$tmp/all.out" || { alarms=$((alarms+1)); echo "CHECKER-FAILED"; tail -3 "$tmp/all.out"; }
 echo "RESULT alarms=$alarms $(basename $(dirname $patch))"
